@@ -4,7 +4,6 @@
 package rt
 
 import (
-	"bytes"
 	"fmt"
 	"go/ast"
 	"go/parser"
@@ -74,11 +73,7 @@ func Render(b *recipe.Builder, fr *recipe.File) (out []byte, err error) {
 		}
 	}()
 	var f *jen.File = b.File(fr)
-	buf := &bytes.Buffer{}
-	if err := f.Render(buf); err != nil {
-		return nil, err
-	}
-	return buf.Bytes(), nil
+	return recipe.RenderFile(f)
 }
 
 // Compare checks that out is the same program as af: package name, imports
